@@ -124,12 +124,14 @@ func (a *Array) MarshalJSONBuffer(dst []byte) ([]byte, error) {
 // Interface returns the array as a slice of interfaces.
 // See Iter.Interface() for a reference on value types.
 func (a *Array) Interface() ([]interface{}, error) {
-	// Estimate length. Assume one value per element.
-	lenEst := (len(a.tape.Tape) - a.off - 1) / 2
-	if lenEst < 0 {
-		lenEst = 0
+	// Count the elements. Estimating from the tape length would count
+	// everything nested inside the array as well, so that for deeply nested
+	// input every level reserved room for all levels below it (quadratic).
+	n := 0
+	for c := a.Iter(); c.Advance() != TypeNone; {
+		n++
 	}
-	dst := make([]interface{}, 0, lenEst)
+	dst := make([]interface{}, 0, n)
 	i := a.Iter()
 	for i.Advance() != TypeNone {
 		elem, err := i.Interface()
